@@ -9,3 +9,10 @@ CLAIMED['C13'] = ('6/C13', 'Bounded-exhaustive symbolic check: every program of 
                   'inspect.getattr_static/getattr vs .param[...], in, iteration, values(), watch, serialize, repr, and class-level watchers '
                   'observe getattr == event.new.',
                   'symbolic execution (CrossHair+z3) of the Parameters namespace/cache code against attribute lookup, path tree exhausted per shard')
+CLAIMED['C01'] = ('6/C01', 'Bounded-exhaustive symbolic check per parameter family: the class is declared inside the path from a symbolic '
+                  'constraint configuration (bounds presence/values/inclusivity over unbounded ints and exact IEEE doubles, allow_None, '
+                  'lengths, item types, steps), one candidate value from a tagged union (symbolic int/float/str/bool or pool object) is '
+                  'assigned through the chosen route, and accept/reject, exception class and read-back are compared with a docs-derived '
+                  'acceptance predicate; a two-step harness checks that the constraints in force at assignment time are applied; the '
+                  'Color hex language is decided by a regex->z3 kernel (unsat of the symmetric difference up to length 8/10).',
+                  'symbolic execution (CrossHair+z3) of the validators with symbolic constraint configuration and value; regex language equivalence in z3')
